@@ -65,6 +65,9 @@ def run(chk, decks, clauses, seed, opts_of=None, npts=96):
     jobs, nd = [], {}
     for i, d in enumerate(decks):
         d = adeck.normalise(d)
+        if i % 3 == 1 and not any(c.get('impsrc') == 'data' for c in d['cells']):
+            ren = adeck.RENUMBERINGS[1 + (i // 3) % 3]       # same meaning under other cell / surface numbers
+            d = adeck.renumber(d, *ren)
         d['pts'] = adeck.grid_points(rng, npts)
         tid = i + 1
         nd[tid] = d
